@@ -89,6 +89,16 @@ def main() -> int:
     # 3. classify findings ---------------------------------------------------
     known = core.load_known(prop)
     n = 0
+    # a broken tie without a concrete failing input: spend a search budget on fresh inputs,
+    # judged by the property's own oracle on the implementation alone
+    if ctx.findings and not any(f.oracle_ok is False for f in ctx.findings) and hasattr(mod, "search"):
+        try:
+            found = mod.search(ctx)
+        except Exception as e:
+            found = None
+            ctx.notes.append(f"failing-input search raised {type(e).__name__}: {e}")
+        if found is not None:
+            ctx.findings.append(found)
     ctx.findings.sort(key=lambda f: 0 if f.oracle_ok is False else 1)
     have_concrete = False
     for f in ctx.findings:
